@@ -11,9 +11,16 @@ git -C /repo worktree add --detach "$WT" HEAD >/dev/null 2>&1 || { echo "$D: can
 cd "$WT"
 export OMP_NUM_THREADS=2 MKL_NUM_THREADS=2
 PYTHONPATH="$WT/src" timeout 900 /venv/bin/python "$D/demo.py" > /tmp/tryseed_out/$NAME.pristine 2>&1; P=$?
-if ! git apply "$D/patch.diff" 2>/tmp/tryseed_out/$NAME.apply; then
-  echo "$D: PATCH DOES NOT APPLY ($(head -c 200 /tmp/tryseed_out/$NAME.apply))"
-  git -C /repo worktree remove --force "$WT"; exit 2
+PATCH="$D/patch.diff"
+[ -f "$D/patch.rebased.diff" ] && PATCH="$D/patch.rebased.diff"   # context refreshed after later fix: commits
+if ! git apply "$PATCH" 2>/tmp/tryseed_out/$NAME.apply; then
+  # later fix: commits may have moved the context lines: retry with fuzz and keep the refreshed diff
+  if patch -p1 -F3 --no-backup-if-mismatch < "$D/patch.diff" >/tmp/tryseed_out/$NAME.apply 2>&1; then
+    git diff > "$D/patch.rebased.diff"
+  else
+    echo "$D: PATCH DOES NOT APPLY ($(head -c 200 /tmp/tryseed_out/$NAME.apply))"
+    git -C /repo worktree remove --force "$WT"; exit 2
+  fi
 fi
 PYTHONPATH="$WT/src" timeout 900 /venv/bin/python "$D/demo.py" > /tmp/tryseed_out/$NAME.patched 2>&1; Q=$?
 cd /verif
